@@ -22,7 +22,9 @@ META = {
             "through POST /dsns and written into the store directly, then every DSN endpoint (create, get, list with paging, "
             "update, grant, permission listing, delete; as root and as a holder of ego.sql only) and every line the server "
             "logs meanwhile (REST/AUTH/DB/SQL/TABLE/SERVER/ROUTE/INFO/USER loggers, text and JSON format) scanned for every "
-            "marker and for the value at rest.",
+            "marker and for the value at rest; every planted DSN is also USED (table list, @sql, in the thorough tier rows and "
+            "@metadata), passwords that cannot stand unescaped in a URL (%zz, space, /, ?, #) included, and the error replies and "
+            "log lines of the connection attempt are scanned (classes dsn-use*, decided by c44UseClass on provider and password).",
     "note": "partial: the statement about ALL routes is a search (canary scan over the real route table, two storage "
             "backends), not a proof; proved parts are the two configuration endpoints (over the extracted rules) and "
             "non-interference of the extracted response sites. Trusted: the go/ast translator (fail-closed; its "
@@ -36,7 +38,13 @@ META = {
             "counted, not judged), log output outside the DSN phase, Ego-language "
             "services under lib/services, webauthn credentials. Defect found and repaired by fixes/C44.patch: the two "
             "endpoints used different lists (refresh token returned by POST /admin/config; client secret, userdata "
-            "key, default credential and upper-case …PASSWORD names returned by both).",
+            "key, default credential and upper-case …PASSWORD names returned by both). Second defect (found by the dsn-use "
+            "requests): dsns.Connection writes the decrypted password unescaped into the connection URL, so a password net/url "
+            "cannot parse comes back in the error text of every table / SQL route and in the DB log line; known finding "
+            "dsn-use-unescaped-password (+ log-…), repair proposed as fixes/C44-2.patch. egostrings.FindScheme puts the whole "
+            "lower-cased connection string into its error; no route reaches it with a decryptable password (POST /dsns refuses "
+            "unknown providers, records written into the store in plain text fail in decrypt), the scan has a lower-case form "
+            "for it. The Lean model does not cover connection strings (search only).",
     "technique": "Lean 4 proof (induction over names; decidable cover check) + go/ast translator (regenerated model) "
                  "+ model/implementation correspondence + canary search",
     "design_ref": "DESIGN.md §6 C44",
@@ -191,6 +199,9 @@ def run(ctx):
         for k in ('dsn_with_secret_store_"sqlite"', 'dsn_with_secret_store_"sqlite3"', 'dsn_with_secret_store_"postgres"'):
             if c.get(k, 0) < 2:
                 ctx.broken.append("DSN phase: %s = %d (no such record with a password at rest in both back ends)" % (k, c.get(k, 0)))
+        if c.get("dsn_used_dsn-use-unescaped-password", 0) < 2 or c.get("dsn_use_requests", 0) < 10:
+            ctx.broken.append("DSN phase: only %d connecting requests, %d DSNs with a password that needs escaping"
+                              % (c.get("dsn_use_requests", 0), c.get("dsn_used_dsn-use-unescaped-password", 0)))
         if c.get("dsn_requests", 0) < 150:
             ctx.broken.append("DSN phase: only %d requests" % c.get("dsn_requests", 0))
         if c.get("log_capture_failed", 0) or c.get("log_lines", 0) < 1000:
